@@ -106,6 +106,32 @@ func switchRace(w *vio.Writer, rng *rand.Rand, trials int) {
 				b.Emit(ev{K: "we", P: 100 + g, Op: "remove", C: bits(v, 24), IP: []int{}, Err: err != nil})
 			}(g)
 		}
+		// readers looking up ranges that are present throughout, while the switch happens
+		for rd := 0; rd < 2; rd++ {
+			wg.Add(1)
+			go func(rd int) {
+				defer wg.Done()
+				b := log.Buf()
+				v := present[(victims[0]+1+rd*7)%256]
+				for _, vv := range victims {
+					if present[vv] == v {
+						v = present[(vv+3)%256]
+					}
+				}
+				for _, vv := range victims { // still a victim after one shift: skip this reader
+					if present[vv] == v {
+						return
+					}
+				}
+				for ready.Load() <= R {
+				}
+				for k := 0; k < 30; k++ {
+					b.Emit(ev{K: "rb", P: 60 + rd, C: []int{}, IP: bits(v|uint32(k), 32)})
+					res := flt.Contains(ip4(v | uint32(k)))
+					b.Emit(ev{K: "re", P: 60 + rd, C: []int{}, IP: bits(v|uint32(k), 32), Res: res})
+				}
+			}(rd)
+		}
 		wg.Wait()
 		probe := func(v uint32) {
 			main.Emit(ev{K: "rb", P: 50, C: []int{}, IP: bits(v, 32)})
@@ -116,7 +142,7 @@ func switchRace(w *vio.Writer, rng *rand.Rand, trials int) {
 		}
 		probe(newRange | 0x1234)
 		probe(present[(victims[0]+1)%256] | 9)
-		maps, index, _ := flt.VerifState()
+		maps, index := flt.VerifState()
 		w.Put(map[string]any{"evs": log.Merge(), "maps": maps, "index": index, "run": -1, "note": "switchrace"})
 	}
 }
@@ -294,7 +320,7 @@ func main() {
 				fin.Emit(ev{K: "re", P: 50, C: []int{}, IP: bits(b, 32), Res: flt.Contains(ip4(b))})
 			}
 		}
-		maps, index, _ := flt.VerifState()
+		maps, index := flt.VerifState()
 		w.Put(map[string]any{"evs": log.Merge(), "maps": maps, "index": index, "run": run, "note": fmt.Sprintf("dwell=%dus prefill=%d", dwell.Load()/1000, prefill)})
 	}
 }
